@@ -608,7 +608,8 @@ class QvmCode(BaseCode):
                 continue
 
             if op == '_empty_block':
-                dbg_collector.mark_empty_block(cur_offset)
+                dbg_collector.mark_empty_block(
+                    cur_offset, args[0] if args else None)
                 continue
 
             bargs = b''
@@ -909,15 +910,17 @@ def gen_code_for_args(args, param_types, code, codegen):
             gen_code_for_conv(param_type, arg, code, codegen)
 
 
-def gen_code_for_block(node_list, code, codegen):
+def gen_code_for_block(node_list, code, codegen, owner=None):
     assert isinstance(node_list, list)
 
     if not node_list:
         # add a dummy statement in the middle so we can differentiate
         # code from the start of block and code from the end of the
-        # block when generating debug info.
+        # block when generating debug info. The marker names the block
+        # it belongs to: its address can coincide with the start of the
+        # statement that follows the block.
         if codegen.debug_info_enabled:
-            code.add(('_empty_block',))
+            code.add(('_empty_block', owner))
         return
 
     for inner_stmt in node_list:
@@ -1474,7 +1477,7 @@ def gen_loop(node, code, codegen):
             code.add(('not',))
         code.add(('jz', loop_label))
 
-    gen_code_for_block(node.body, code, codegen)
+    gen_code_for_block(node.body, code, codegen, owner=node)
 
     if node.kind.startswith('loop_'):
         gen_code_for_cond(node.cond, code, codegen)
@@ -1591,7 +1594,7 @@ def gen_for_block(node, code, codegen):
     )
 
     code.add(('_label', body_label))
-    gen_code_for_block(node.body, code, codegen)
+    gen_code_for_block(node.body, code, codegen, owner=node)
 
     code.add(
         ('_label', next_label),
@@ -1664,7 +1667,7 @@ def gen_if_block(node, code, codegen):
         if cur_else_stmt and codegen.debug_info_enabled:
             code.add(('_dbg_info_end', cur_else_stmt))
 
-        gen_code_for_block(body, code, codegen)
+        gen_code_for_block(body, code, codegen, owner=node)
 
         if codegen.debug_info_enabled:
             if elseif_stmts:
@@ -1684,7 +1687,7 @@ def gen_if_block(node, code, codegen):
 
     if node.else_stmt is not None or node.else_body:
         # (a missing ELSE is not an empty block: no marker for it)
-        gen_code_for_block(node.else_body, code, codegen)
+        gen_code_for_block(node.else_body, code, codegen, owner=node)
     code.add(('_label', endif_label))
 
 
@@ -1935,7 +1938,7 @@ def gen_sub_block(node, code, codegen):
               get_params_size(node.routine),
               lambda: get_local_vars_size(node.routine)))
 
-    gen_code_for_block(node.block, code, codegen)
+    gen_code_for_block(node.block, code, codegen, owner=node)
     code.add(('ret',))
 
 
@@ -1949,7 +1952,7 @@ def gen_func_block(node, code, codegen):
               get_params_size(node.routine),
               lambda: get_local_vars_size(node.routine)))
 
-    gen_code_for_block(node.block, code, codegen)
+    gen_code_for_block(node.block, code, codegen, owner=node)
 
     type_char = node.routine.return_type.type_char
     code.add((f'readl{type_char}', '_retval'))
@@ -1998,7 +2001,7 @@ def gen_while_block(node, code, codegen):
     code.add(('jz', wend_label))
 
     code.add(('_label', body_label))
-    gen_code_for_block(node.body, code, codegen)
+    gen_code_for_block(node.body, code, codegen, owner=node)
     code.add(('jmp', check_label))
 
     code.add(('_label', wend_label))
@@ -2037,7 +2040,7 @@ def gen_select_block(node, code, codegen):
         code.add(('jz', next_case_label))
 
         code.add(('_label', codegen.get_label('case_body')))
-        gen_code_for_block(body, code, codegen)
+        gen_code_for_block(body, code, codegen, owner=node)
         code.add(('jmp', end_label))
 
         cur_case_label = next_case_label
